@@ -23,7 +23,10 @@ with ThreadPoolExecutor(8) as ex:
     for pid, rc, bad, inc in ex.map(run, pids):
         base[pid] = len(inc)
 total_bad = 0
+only = [a for a in sys.argv[2:] if not a.startswith("--")]
 for patch in sorted(d.glob("r*.diff")):
+    if only and patch.stem not in only:
+        continue
     chk = sh(f"git -C /repo apply --check {patch}")
     if chk.returncode:
         print(f"{patch.name}: does not apply: {chk.stderr[:200]}"); continue
